@@ -13,6 +13,11 @@ RULE = (
     "Categorical columns with declared non-sorted order, pairwise different level counts): each label is "
     "interpreted by the reference label semantics and compared with its column.  Non-trivial: the design has a "
     "categorical interaction or a group-specific term"
+    '  Added frame variants: unused declared categories, other numeric dtypes, 72-96 rows with a dozen levels, '
+    'falsy level names, 8-bit integer columns whose products exceed 8 bits, values of magnitude 1e-10 / 1e-13 '
+    '(comparison purely relative); labels re-checked on re-evaluated matrices, on two-row categorical batches, '
+    'on new frames with unseen levels in silent mode, and again after printing every matrix and building the '
+    'same formula on another frame. '
 )
 ASSUMPTIONS = [
     "label semantics (name[level], ':' product, 'e|g[l]') as documented; only treatment-coded pieces are interpreted",
